@@ -128,6 +128,40 @@ def _libdir(repo):
     return os.path.join(repo, "ciderpress", "lib")
 
 
+def _cmake_sources(repo, sub, target, fallback):
+    """source list of add_library(<target> SHARED ...) in <sub>/CMakeLists.txt, so that a
+    source file added to (or removed from) the build of the tree under test is followed"""
+    import re
+
+    f = os.path.join(_libdir(repo), sub, "CMakeLists.txt")
+    try:
+        txt = open(f).read()
+    except OSError:
+        return fallback
+    best = None
+    for m in re.finditer(r"add_library\(\s*%s\s+SHARED([^)]*)\)" % re.escape(target), txt):
+        names = [w for w in m.group(1).split() if w.endswith(".c")]
+        # with MPI absent the non-MPI variant is the one CMake would build
+        names = [n for n in names if "mpi" not in n.lower()]
+        if names and (best is None or len(names) < len(best) or best is None):
+            best = names if best is None else best
+    if not best:
+        return fallback
+    out = [sub + "/" + n for n in best]
+    if all(os.path.exists(os.path.join(_libdir(repo), x)) for x in out):
+        return out
+    return fallback
+
+
+def lib_specs(repo):
+    specs = {k: dict(v) for k, v in LIBS.items()}
+    specs["libmcider"]["srcs"] = _cmake_sources(repo, "mod_cider", "mcider", LIBS["libmcider"]["srcs"])
+    specs["libnumint"]["srcs"] = _cmake_sources(repo, "numint_cider", "numint", LIBS["libnumint"]["srcs"])
+    specs["libxc_utils"]["srcs"] = _cmake_sources(repo, "xc_utils", "xc_utils", LIBS["libxc_utils"]["srcs"])
+    specs["libfft_wrapper"]["srcs"] = _cmake_sources(repo, "fft_wrapper", "fft_wrapper", LIBS["libfft_wrapper"]["srcs"])
+    return specs
+
+
 def _source_files(repo):
     base = _libdir(repo)
     out = []
@@ -223,8 +257,9 @@ def build(variant="plain", repo=None, verbose=False):
         xc_inc, xc_lib = _pyscf_deps()
         base = _libdir(repo)
         jobs = []
+        specs = lib_specs(repo)
         for lib in ORDER:
-            spec = LIBS[lib]
+            spec = specs[lib]
             for s in spec["srcs"]:
                 obj = os.path.join(out, "obj", lib + "__" + os.path.basename(s)[:-2] + ".o")
                 cmd = ["gcc", "-c", "-fPIC", "-w"] + v["cflags"]
@@ -246,7 +281,7 @@ def build(variant="plain", repo=None, verbose=False):
             objs = sorted(glob.glob(os.path.join(out, "obj", "sim__*.o")))
             _run(["gcc", "-shared", "-o", os.path.join(out, "libsimgomp.so")] + objs + ["-lopenblas", "-lm", "-ldl"])
         for lib in ORDER:
-            spec = LIBS[lib]
+            spec = specs[lib]
             objs = sorted(glob.glob(os.path.join(out, "obj", lib + "__*.o")))
             cmd = ["gcc", "-shared", "-o", os.path.join(out, lib + ".so")] + objs
             cmd += ["-L" + out, "-L" + xc_lib, "-Wl,-rpath," + out, "-Wl,-rpath," + xc_lib]
